@@ -26,6 +26,7 @@ func checkC15(p *Prog, r *Report) {
 	c15Table(p, r)
 	c15PTF(p, r)
 	c15PTFArgs(p, r)
+	c15TableOrder(p, r)
 	c15Saturation(p, r, "C15.R3")
 	c15History(p, r, "C15.R4")
 }
@@ -867,4 +868,53 @@ func c15PTFArgs(p *Prog, r *Report) {
 	if n == 0 {
 		r.Ob("args", "-", false, "no pedotransfer call found in the input routine")
 	}
+}
+
+// ---------------------------------------------------------------- texture table: corrections keep the order
+
+// c15TableOrder: the table values themselves are data, but the routine adds corrections to them afterwards
+// (organic matter and groundwater classes raise the field capacity by KRR, organic matter raises the pore
+// volume of sands by KRG).  KRR and KRG are chosen in unrelated branches, so field capacity <= pore volume
+// survives only if the routine caps the corrected field capacity at the corrected pore volume.
+func c15TableOrder(p *Prog, r *Report) {
+	r.Rule("C15.R2d", "texture table: after the corrections added to the looked-up values, the field capacity the routine hands over is capped at the pore volume it hands over (cap idiom on the same horizon, after the last store of both, under no other condition)", 1)
+	x := walked(p, "hermes.Hydro")
+	if x == nil {
+		r.Ob("Hydro", "-", false, "hermes.Hydro not found")
+		return
+	}
+	var lastFC, lastPV, cap *Event
+	for _, e := range x.Events {
+		if e.Kind != "assign" || len(e.Loops) != 0 {
+			continue
+		}
+		switch e.Root {
+		case "GlobalVarsMain.FELDW":
+			if isCapStore(e) {
+				cap = e
+			} else {
+				lastFC = e
+				cap = nil
+			}
+		case "GlobalVarsMain.PRGES":
+			lastPV = e
+			cap = nil
+		}
+	}
+	if lastFC == nil || lastPV == nil {
+		r.Ob("fc<=pv", "-", false, "the stores of the corrected field capacity and pore volume were not found in Hydro")
+		return
+	}
+	ok := cap != nil
+	det := fmt.Sprintf("field capacity = %s; pore volume = %s", clip(stripVersions(lastFC.Val).String(), 90), clip(stripVersions(lastPV.Val).String(), 90))
+	if cap != nil {
+		sameIdx := len(cap.Idx) == len(lastPV.Idx) && len(cap.Idx) == 1 && cap.Idx[0].Equal(lastPV.Idx[0]) && cap.Idx[0].Equal(lastFC.Idx[0])
+		toPV := stripVersions(cap.Val).Equal(stripVersions(lastPV.Val))
+		plain := len(branchKeys(cap, cap.Old.Sub(cap.Val))) == 0
+		ok = sameIdx && toPV && plain
+		det += fmt.Sprintf("; cap found (same horizon: %v, bound is the pore volume: %v, unconditional: %v)", sameIdx, toPV, plain)
+	} else {
+		det += "; no cap of the field capacity at the pore volume follows: the field-capacity correction (up to +13 Vol%) and the pore-volume correction (0 for silt, loam and clay) are chosen independently, so field capacity can exceed pore volume"
+	}
+	r.Ob("fc<=pv", p.Pos(lastFC.Pos), ok, det)
 }
